@@ -44,6 +44,7 @@ type Opts struct {
 	FuncsPer     int
 	SmallBody    bool
 	NoNestedMain bool
+	PkgDirNotes  bool // always put the hand-written NOTES.md into internal/cov (a possible tracking package path)
 }
 
 func pkgImportPath(dir string) string {
@@ -244,6 +245,10 @@ func Generate(r *rand.Rand, o Opts) *Project {
 		p.addDecoys(r)
 	}
 	p.addShapes(r)
+	if o.PkgDirNotes {
+		p.ExtraOld["internal/cov/NOTES.md"] = "notes kept next to the generated file\n"
+		p.ExtraNew["internal/cov/NOTES.md"] = "notes kept next to the generated file\n"
+	}
 	p.Dist = g.Dist
 	return p
 }
@@ -273,12 +278,11 @@ func (p *Project) addShapes(r *rand.Rand) {
 		p.ExtraOld["pkg/l0/_parked.go"] = parked(1)
 		p.ExtraNew["pkg/l0/_parked.go"] = parked(2)
 	}
-	// hand-written code in a directory that may be configured as the tracking package path
-	// (internal/cov, package covpkg): unchanged between the revisions, never to be lost
+	// a hand-written (non-Go) file in a directory that may be configured as the tracking package
+	// path (internal/cov): never to be touched or lost, and it keeps that directory alive
 	if r.Intn(3) == 0 {
-		user := "package covpkg\n\n// UserNote is hand-written code living next to the generated file.\nfunc UserNote() int {\n\treturn 7\n}\n"
-		p.ExtraOld["internal/cov/zz_user.go"] = user
-		p.ExtraNew["internal/cov/zz_user.go"] = user
+		p.ExtraOld["internal/cov/NOTES.md"] = "notes kept next to the generated file\n"
+		p.ExtraNew["internal/cov/NOTES.md"] = "notes kept next to the generated file\n"
 	}
 	// a very long line (an embedded asset, > 64 KiB) after the last function of a changed file
 	if r.Intn(4) == 0 {
